@@ -53,8 +53,11 @@ def run(pid, tier, seed, replay=None):
         ck.extra["max_flow_coverage_directed_generation"] = cov
     else:
         ck.mc(DIR, "FlowAlgs", "MC_ssp3.cfg")
+        ck.mc(DIR, "NetSimplex", "MC_ns_quick.cfg")
         if tier == "thorough":
             ck.mc(DIR, "FlowAlgs", "MC_cert.cfg", timeout=3000)
+            ck.mc(DIR, "NetSimplex", "MC_ns3.cfg", timeout=6000)
+            ck.mc(DIR, "NetSimplex", "NC_ns.cfg", expect_violation="Bounds", timeout=3000)
         nq = 300 if tier == "quick" else 5000
         c1 = [drv.gen_mincost(rng, nmax=4 if i % 3 == 0 else 8) for i in range(nq)]
         c2 = [drv.gen_mincost(rng, general=True) for _ in range(nq)]
